@@ -334,13 +334,16 @@ def parse_action(label: str) -> tuple:
     return (m.group(1), args)
 
 
+_PC2ST = {"qstart": "waiting", "qend": "waiting", "cstart": "creating", "cend": "creating", "reuse": "reusing"}
+
+
 def model_projection(st: dict) -> dict:
-    return {"st": {str(k): str(v) for k, v in st["pc"].items()}, "closed": bool(st["closed"])}
+    return {"st": {str(k): _PC2ST.get(str(v), str(v)) for k, v in st["pc"].items()}, "closed": bool(st["closed"])}
 
 
 def replay_behaviour(ctx: Ctx, loop: steploop.StepLoop, beh: List[Any], consts: dict) -> dict:
     names = consts["tasks"]
-    x = PoolExec(loop, consts["L"], consts["Lh"], names, consts["keyof"])
+    x = PoolExec(loop, consts["L"], consts["Lh"], names, consts["keyof"], None, set(consts.get("traced") or []))
     drift = None
     for label, st in beh[1:]:
         act, args = parse_action(label)
@@ -472,10 +475,14 @@ CONSTANTS
   MaxFail = {mf}
   AllowClose = {close}
   AllowPeerClose = {peer}
+  Traced = {traced}
+  TraceLeakFix = TRUE
+  ReuseLeakFix = {rlf}
 {liminv}INVARIANT Accounting
 INVARIANT NoLostWake
 INVARIANT NoLeak
 INVARIANT IdleDistinct
+INVARIANT NoUntracked
 PROPERTY CloseFailsAll
 CHECK_DEADLOCK FALSE
 """
@@ -492,16 +499,18 @@ def tla_set(xs: List[str]) -> str:
 
 
 def write_cfg(variant: str, L: int, Lh: int, handoff: bool, mc: int, mf: int, close: bool, peer: bool,
-              ideal: bool = False, limits: bool = True) -> tuple:
+              ideal: bool = False, limits: bool = True, traced: Optional[List[str]] = None,
+              rlf: bool = True) -> tuple:
     tasks, keys, keyof = VARIANTS[variant]
     d = mktemp("c07cfg")
     p = os.path.join(d, f"ClientPool_{variant}_{L}_{Lh}.cfg")
     with open(p, "w") as f:
         f.write(CFG.format(tasks=tla_set(tasks), keys=tla_set(keys), keyof=variant, L=L, Lh=Lh,
                            handoff=str(handoff).upper(), reuse=str(ideal).upper(),
+                           traced=tla_set(traced or []), rlf=str(rlf).upper(),
                            liminv="INVARIANT HarnessLimit\nINVARIANT LimitInv\n" if limits else "", mc=mc, mf=mf, close=str(close).upper(),
                            peer=str(peer).upper()))
-    return p, {"tasks": tasks, "keys": keys, "keyof": keyof, "L": L, "Lh": Lh}
+    return p, {"tasks": tasks, "keys": keys, "keyof": keyof, "L": L, "Lh": Lh, "traced": list(traced or [])}
 
 
 def judge(ctx: Ctx, traces: List[dict], label: str) -> None:
@@ -557,6 +566,14 @@ def run(ctx: Ctx) -> None:
         res = run_tlc("ClientPoolMC", cfg, workers=16, timeout=ctx.pick(400, 3000), deadlock=False)
         ok = ctx.expect_model_ok(f"ClientPool[as-coded]({variant},L={L},Lh={Lh},cancel<={mc},fail<={mf},close={close})", res)
         ctx.log(f"model[as-coded] {variant} L={L} Lh={Lh}: {res.distinct} distinct states ok={ok} {res.wall_s:.0f}s")
+    # (b') callers with suspending TraceConfig callbacks (extra await points inside connect())
+    for (variant, L, Lh, tr) in ctx.pick([("KeyOf1", 1, 0, ["t1", "t2"])],
+                                         [("KeyOf1", 1, 0, ["t1", "t2", "t3"]), ("KeyOf2", 1, 0, ["t1", "t3"]),
+                                          ("KeyOf2", 2, 1, ["t1", "t2"])]):
+        cfg, _ = write_cfg(variant, L, Lh, True, 1, 1, ctx.pick(False, True), False, ideal=False, limits=False, traced=tr)
+        res = run_tlc("ClientPoolMC", cfg, workers=16, timeout=ctx.pick(400, 3000), deadlock=False)
+        ok = ctx.expect_model_ok(f"ClientPool[as-coded,traced={tr}]({variant},L={L},Lh={Lh})", res)
+        ctx.log(f"model[traced {tr}] {variant} L={L} Lh={Lh}: {res.distinct} distinct states ok={ok} {res.wall_s:.0f}s")
     # (c) the as-coded model with the limit invariants: TLC exhibits the known deviation
     cfg, _ = write_cfg("KeyOf2", 1, 0, True, 0, 0, False, False, ideal=False, limits=True)
     res = run_tlc("ClientPoolMC", cfg, workers=16, timeout=300, deadlock=False)
@@ -577,7 +594,8 @@ def run(ctx: Ctx) -> None:
                      ("KeyOf4", 2, 1, 2, 1, False, True, 2500), ("KeyOf2", 1, 1, 2, 1, True, True, 1500),
                      ("KeyOf2", 1, 0, 2, 1, True, False, 1500)])
     for (variant, L, Lh, mc, mf, close, peer, num) in sims:
-        cfg, consts = write_cfg(variant, L, Lh, True, mc, mf, close, peer)
+        tr = ["t1", "t3"] if (L, Lh) == (1, 0) and variant == "KeyOf2" else (["t2"] if variant == "KeyOf1" else [])
+        cfg, consts = write_cfg(variant, L, Lh, True, mc, mf, close, peer, traced=tr)
         behs, _ = simulate_behaviours("ClientPoolMC", cfg, num=num, depth=ctx.pick(22, 30), seed=ctx.seed, timeout=400)
         for b in behs:
             traces.append(replay_behaviour(ctx, loop, b, consts))
@@ -604,6 +622,10 @@ def selftest(ctx: Ctx) -> int:
     res = run_tlc("ClientPoolMC", cfg, workers=16, timeout=300, deadlock=False)
     ok1 = res.violated == "NoLostWake"
     print("mutant model (Handoff=FALSE):", res.violated)
+    cfg, _ = write_cfg("KeyOf1", 1, 0, True, 1, 0, False, False, traced=["t1", "t2"], rlf=False)
+    res = run_tlc("ClientPoolMC", cfg, workers=16, timeout=300, deadlock=False)
+    print("mutant model (ReuseLeakFix=FALSE, traced callers):", res.violated)
+    ok1 = ok1 and res.violated == "NoUntracked"
     # trace-level: corrupt a good trace
     x = PoolExec(loop, 1, 0, ["t1", "t2"], {"t1": "k1", "t2": "k1"})
     x.spawn("t1"); x.settle(); x.spawn("t2"); x.settle(); x.create_ok("t1"); x.settle()
